@@ -89,7 +89,7 @@ def check_C01(res, scratch, tier, seed):
     long_trace_part(res, scratch, tier, seed, builds, ("C01",))
     # (T) long inputs of random and nested-nullable grammars, grown under the guidance of the abstract states (set core, distance
     #     pattern) they cover; recorded sets against the ideal ones; continuations generated by TLC where a recorded set lacks items
-    set_sweep_part(res, scratch, tier, seed, builds, ("C01",), n=(80 if tier == "quick" else 1500))
+    set_sweep_part(res, scratch, tier, seed, builds, ("C01",), n=(80 if tier == "quick" else 600))
     res.cov["exhaustive"] = True
     res.assumptions = ["small-scope: exhaustive only over the stated families; the corpus (curated, chain families, seeded random) is a sample judged by TLC",
                        "vectors are computed by TLC from spec/Deriv.tla"]
@@ -1290,7 +1290,7 @@ def set_sweep_part(res, scratch, tier, seed, builds, props, n=None):
         is judged as in (1): only a wrong outcome on a real input is reported."""
     import concurrent.futures as cf
     n = n or (150 if tier == "quick" else 1500)
-    ents = _corpus.long_random_entries(seed, n) + _corpus.nested_nullable_family(seed, 30 if tier == "quick" else 300)
+    ents = _corpus.long_random_entries(seed, n) + _corpus.nested_nullable_family(seed, 30 if tier == "quick" else 150)
     code = CODEMAPS["ascii"]
     mx = [(0, 1, 0, 0, 3, 0), (1, 1, 0, 0, 3, 0), (2, 1, 0, 1, 2, 0)]
     cfgx = "CONSTANTS\n  GrammarsR <- DummyG\n  InputsR <- DummyI\n  MatchVals = {1}\n"
@@ -1359,7 +1359,7 @@ def set_sweep_part(res, scratch, tier, seed, builds, props, n=None):
     seen = {}
     pools = {e["id"]: [w for w in e["inputs"]] for e in guided}
     gm = [(0, 1, 0, 0, 3, 0)]
-    for rd in range(4 if tier == "quick" else 8):
+    for rd in range(4 if tier == "quick" else 6):
         cand = []
         for e in guided:
             ws = pools[e["id"]]
